@@ -376,5 +376,44 @@ func main() {
 		out.Count("iterators", strconv.Itoa(iters))
 	}
 	out.Notes = append(out.Notes, "names/values are well-formed Unicode strings compared as UTF-8 bytes; %XX in parsed strings decode to ASCII or valid UTF-8 only")
+	// forEach against the live walk: the iterators are the model's (live-index, proven to observe the WHATWG list); forEach must
+	// visit exactly what "for (const [k, v] of p)" visits when the callback changes the list in the same way at the same visit
+	nfe := 120
+	if lib.Tier() == "thorough" {
+		nfe = 3000
+	}
+	for c := 0; c < nfe; c++ {
+		np := 1 + r.Intn(6)
+		var init []string
+		for i := 0; i < np; i++ {
+			init = append(init, r.Pick([]string{"a", "b", "c", "x"})+"="+strconv.Itoa(i))
+		}
+		muts := []string{`q.delete(k)`, `q.delete("a")`, `q.delete("a"); q.delete("b"); q.delete("c"); q.delete("x")`, `q.append("n", "1")`, `q.append("a", "9"); q.append("b", "9")`,
+			`q.set(k, "s")`, `q.set("zz", "1")`, `q.sort()`, `q.delete("b", v)`, `if (u) u.search = "?z=9&y=8"`, `if (u) u.search = ""`, `if (u) u.href = "http://other/?m=1&n=2&o=3"`}
+		m1, at := r.Pick(muts), r.Intn(np+1)
+		viaURL := r.Chance(40)
+		mk := `new URLSearchParams(` + js(strings.Join(init, "&")) + `)`
+		if viaURL {
+			mk = `(u = new URL("http://h/?` + strings.Join(init, "&") + `")).searchParams`
+		}
+		script := fmt.Sprintf(`(function(){
+  function run(mode){ var u = null, q = %s, log = [], n = 0;
+    var visit = function(v, k){ log.push(k + "=" + v); if (n++ === %d) { %s } if (n > 40) throw new Error("runaway") };
+    try { if (mode === 0) q.forEach(function(v, k){ visit(v, k) }); else for (var e of q) visit(e[1], e[0]) } catch (e) { log.push("threw " + e.message) }
+    return log.join("&") + " | " + q.toString() }
+  return JSON.stringify([run(0), run(1)]) })()`, mk, at, m1)
+		v, err := vm.RunString(script)
+		if err != nil {
+			out.Fail(len(out.Cases), "history-threw", map[string]interface{}{"script": script, "err": err.Error()})
+			continue
+		}
+		var two []string
+		json.Unmarshal([]byte(v.String()), &two)
+		if len(two) == 2 && two[0] != two[1] {
+			out.Fail(len(out.Cases), "forEach-is-not-the-live-walk-of-the-list", map[string]interface{}{"list": strings.Join(init, "&"), "through_url": viaURL,
+				"callback_at_visit": at, "callback_does": m1, "forEach_visited_then_list": two[0], "for_of_visited_then_list": two[1]})
+		}
+		out.Count("kind", "forEach-vs-iterator")
+	}
 	out.Write(outPath)
 }
